@@ -26,7 +26,7 @@ LTNext ==
   /\ IF Ev.ev = "linget"
      \* Get while an installed entry is replaced over and over: installed before the first Get started and never
      \* deleted (a replace swaps the payload in one step), so every Get returns it - exactly once (C07, C11)
-     THEN (IF Ev.failed # "" THEN PrintT(<<"MISMATCH", l, "linget", {"lingetSetup"}>>)
+     THEN (IF Ev.failed # "" THEN PrintT(<<"MISMATCH", l, "linget", {"lingetFailed"}>>)
            ELSE IF Ev.missing > 0 THEN PrintT(<<"MISMATCH", l, "linget", {"getMissedInstalledEntry"}>>)
            ELSE IF Ev.dup > 0 THEN PrintT(<<"MISMATCH", l, "linget", {"getDuplicateDuringReplace"}>>)
            ELSE TRUE)
@@ -39,7 +39,7 @@ LTNext ==
      ELSE IF Ev.ev = "linref"
      \* DELETE of a next-hop (group) while the group (prefix) that refers to it is re-sent over and over: it is
      \* referenced before, during and after every replace, so every DELETE is answered FAILED (C03, C11)
-     THEN (IF Ev.failed # "" THEN PrintT(<<"MISMATCH", l, "linref", {"linrefSetup"}>>)
+     THEN (IF Ev.failed # "" THEN PrintT(<<"MISMATCH", l, "linref", {"linrefFailed"}>>)
            ELSE IF Ev.accepted > 0 THEN PrintT(<<"MISMATCH", l, "linref", {"refDeletedWhileReferenced"}>>)
            ELSE TRUE)
      ELSE IF Ev.ev # "lin" THEN TRUE
